@@ -558,3 +558,122 @@ def rule_link(prog, rep, unit, rid='DL2'):
                 rep.violation(rid, f, dn.line, 'link:%s' % p_.split('`')[1], p_)
     if found == 0:
         raise AnalysisBroken('%s: no function that links a new node and counts it was found' % unit)
+
+
+# --------------------------------------------------------------------------------------
+# DL3: the link position of a new node is sampled after the last operation that may free nodes
+
+def rule_fresh_position(prog, rep, units, rid='DL3'):
+    """A pointer read from the chain (`C->first`, `C->last`, `X->next`, `X->prev`) and parked in a link field of a node that
+    is not linked yet (`obj->prev = tbl->last`) designates a node of the container.  A call that may free arbitrary nodes of
+    the same container (a remove-by-key, a clear ...) between the sample and the call that links the node in makes the
+    parked pointer dangle: the linker then writes through it.  May-analysis over all paths; a re-sample refreshes."""
+    rep.rule(rid, 'a chain pointer parked in the link fields of a not-yet-linked node is not separated from the link-in call by a call '
+                  'that may free nodes of the container (remove-by-key, clear): the position is sampled after the removal')
+    for unit in units:
+        prog.unit(unit)
+        funcs = [f for f in prog.funcs_in(unit) if f.body is not None]
+        # node record types: records with self-typed prev and next links that are dereferenced in this unit
+        nodetypes = set()
+        for f in funcs:
+            for x in walk(f.body):
+                if x.get('kind') == 'MemberExpr' and x.get('name') in ('prev', 'next') and x.get('_field'):
+                    nodetypes.add(x['_field'][0])
+        if not nodetypes:
+            continue
+        # functions that may free a node (directly or through calls inside the unit / the method table)
+        freers = set()
+        for f in funcs:
+            for x in walk(f.body):
+                if x.get('kind') == 'CallExpr' and prog.callee_name(x) == 'free' and len(children(x)) > 1:
+                    a = strip(children(x)[1])
+                    t = (qtype(a) or '')
+                    rt = f.unit.resolve_typedef(t.replace('*', '').replace('const', '').strip())[0] if t.rstrip().endswith('*') else None
+                    if rt in nodetypes:
+                        freers.add(f.name)
+        changed = True
+        while changed:
+            changed = False
+            for f in funcs:
+                if f.name in freers:
+                    continue
+                for x in walk(f.body):
+                    if x.get('kind') == 'CallExpr' and any(getattr(c, 'name', None) in freers for c in prog.callees(f.unit, x)):
+                        freers.add(f.name)
+                        changed = True
+                        break
+        rep.notes.setdefault('node_freeing_functions', {})[unit] = sorted(freers)
+
+        def chain_read(e):
+            e = strip(e)
+            if e.get('kind') == 'ConditionalOperator':
+                return any(chain_read(c) for c in children(e)[1:])
+            return e.get('kind') == 'MemberExpr' and e.get('name') in ('first', 'last', 'next', 'prev', 'head', 'tail')
+
+        for f in sorted(funcs, key=lambda x: x.line or 0):
+            cfg = f.cfg
+            # events per node
+            evs = {}
+            interesting = False
+            for n in cfg.nodes:
+                if n.id not in cfg.reachable or not isinstance(n.ast, dict) or n.kind == 'macro':
+                    continue
+                out = []
+                for ev in node_events(n):
+                    if ev[0] == 'assign':
+                        fld, b = _field(ev[1])
+                        if fld in ('prev', 'next') and b is not None and strip(b).get('kind') == 'DeclRefExpr':
+                            out.append(('park', canon(b), chain_read(ev[2])))
+                    elif ev[0] == 'call':
+                        cs = prog.callees(f.unit, ev[1])
+                        names = {getattr(c, 'name', None) for c in cs}
+                        args = [canon(a) for a in children(ev[1])[1:]]
+                        if names & freers and 'free' not in names:
+                            out.append(('mayfree', ev[1], args))
+                        out.append(('pass', ev[1], args))
+                if any(e[0] == 'mayfree' for e in out):
+                    interesting = True
+                evs[n.id] = out
+            if not interesting:
+                continue
+            parked_any = any(e[0] == 'park' and e[2] for es in evs.values() for e in es)
+            if not parked_any:
+                continue
+            rep.instance(rid)
+            IN = {cfg.entry.id: frozenset()}
+            work = [cfg.entry]
+            bad = None
+            while work:
+                n = work.pop()
+                st = set(IN[n.id])            # ('fresh', O) / ('stale', O)
+                for e in evs.get(n.id, ()):
+                    if e[0] == 'park':
+                        st.discard(('stale', e[1]))
+                        st.discard(('fresh', e[1]))
+                        if e[2]:
+                            st.add(('fresh', e[1]))
+                    elif e[0] == 'pass':
+                        for (k, o) in list(st):
+                            if k == 'stale' and o in e[2] and bad is None:
+                                bad = (e[1], o)
+                    elif e[0] == 'mayfree':
+                        for (k, o) in list(st):
+                            if k == 'fresh' and o not in e[2]:
+                                st.discard((k, o))
+                                st.add(('stale', o))
+                    if e[0] == 'mayfree':
+                        continue
+                st = frozenset(st)
+                for (s, _l) in n.succs:
+                    old = IN.get(s.id)
+                    if old is None:
+                        IN[s.id] = st
+                        work.append(s)
+                    elif not st <= old:
+                        IN[s.id] = old | st
+                        work.append(s)
+            rep.oblige(rid, bad is None, {'function': f.name})
+            if bad is not None:
+                rep.violation(rid, f, bad[0].get('_line'), 'stale:%s' % bad[1],
+                              '%s: the link fields of %s hold a chain pointer sampled before a call that may free nodes of the container; '
+                              '%s then links through it (write into a freed neighbour)' % (f.name, bad[1], canon(bad[0])[:50]))
